@@ -17,6 +17,9 @@ ASSUMPTIONS = []
 
 
 def generate(rng, tier):
+    from ..core import Case
+    # the Default values of the header types (values like any other) and conversions nothing else goes through
+    yield Case(["impl.bf.defaults"], {"k": "defaults"})
     r2 = random.Random(rng.randrange(1 << 30))
     n = 0
     for c in c12.generate(r2, "quick"):
@@ -31,8 +34,12 @@ def generate(rng, tier):
 
 
 def oracle(c):
+    if c.meta.get("k") == "defaults":
+        return [] if c.impl[0] == "ok" else [("default-value-does-not-round-trip", {"impl": (c.impl[0] or "")[:300]})]
     return c12.oracle(c)
 
 
 def is_trivial(c):
+    if c.meta.get("k") == "defaults":
+        return False
     return c12.is_trivial(c) if hasattr(c12, "is_trivial") else False
